@@ -89,6 +89,7 @@ func Get(
 ) {
 	vChan, op, err := startGetTraversal(target, s, seq, salt)
 	if err != nil {
+		op.Stop()
 		return
 	}
 	ret.Seq = math.MinInt64
@@ -132,6 +133,7 @@ func Put(
 		// This is duplicated with the put, but we need it to filter responses for autoSeq.
 		salt)
 	if err != nil {
+		op.Stop()
 		return
 	}
 	var autoSeq int64
